@@ -171,6 +171,14 @@ def payloadThrough (s : ProcState) : Rel → Option AnyPayload
     | none => payloadThrough s t
   | r => s.payloadOf r
 
+/-- `while inner.payload is None and isinstance(inner, MarkerRelation) and not isinstance(inner, Materialization)` -/
+def lookThrough (s : ProcState) : Rel → Rel
+  | .transfer oid d t =>
+    if (s.payloadOf (.transfer oid d t)).isSome then .transfer oid d t else lookThrough s t
+  | .select oid a b c d e f g t =>
+    if (s.payloadOf (.select oid a b c d e f g t)).isSome then .select oid a b c d e f g t else lookThrough s t
+  | r => r
+
 /-- The `Materialization` found by looking through non-materialization marker wrappers
 (`attach_payload` on anything else raises `TypeError`). -/
 def newMatOid : Rel → Option Nat
@@ -210,14 +218,17 @@ def processRec (σ : Leaves) : Nat → Rel → Option String → ProcM (Res × B
           | .ok r =>
             let res ← tempRoot (setMatOid name (← freshTemp) (r.get newTarget))
             pure (Res.new res)
-      match result with
-      | .new res =>
-        if let some p := (← get).payloadOf res then
+      -- look through engine-specific wrappers for the relation that holds / should receive the payload
+      let sNow ← get
+      let inner : Option Rel := match result with
+        | .new res => some (lookThrough sNow res)
+        | .same => none
+      if let (.new res, some i) := (result, inner) then
+        if let some p := (← get).payloadOf i then
           -- simplified away (perhaps a materialization of a leaf now)
           modify (fun s => s.attach oid p)
           return (.new res, true)
-      | .same => pure ()
-      -- `payload = new_target.payload` may be `None` (e.g. a payload-less `Select` wrapper)
+      -- `payload = new_target.payload` looked up through wrappers; may still be `None`
       let payload : Option AnyPayload ←
         if persisted then pure (payloadThrough (← get) newTarget)
         else if orig.isJoinIdentity then do pure (some (← trivialPayload target.engine true orig.columns))
@@ -225,18 +236,13 @@ def processRec (σ : Leaves) : Nat → Rel → Option String → ProcM (Res × B
         else do pure (some (← hookMaterialize σ newTarget name))
       if let some p := payload then
         modify (fun s => s.attach oid p)
-      match result with
-      | .same => return (.same, true)
-      | .new res =>
-        -- `result.attach_payload(payload)`: the result must be a payload-less marker relation
-        -- attach to the new Materialization itself, looking through wrapper markers
-        match newMatOid res with
-        | some o =>
-          if let some p := payload then
-            if ((← get).st.payload o).isSome || (← get).sq.hasPayload o then throw .type
-            modify (fun s => s.attach o p)
-          return (.new res, true)
-        | none => return (.new res, true)      -- `if isinstance(new_materialization, Materialization)`
+      match result, inner with
+      | .new res, some (.mat o _ _) =>
+        if let some p := payload then
+          modify (fun s => s.attach o p)
+        return (.new res, true)
+      | .new res, _ => return (.new res, true)
+      | .same, _ => return (.same, true)
     | .select .. =>
       let target := match orig with
         | .select _ _ _ _ _ _ _ _ t => t
